@@ -158,30 +158,17 @@ def run(ctx):
 
 
 def total_shapes_is_sum_of_multiplicities(f, ts):
-    from ..lineage import adaptor_chain
-    t = Tracer(ts)
-    src, chain = adaptor_chain(t, {'k': 'copy', 'l': 0, 'p': []})
-    names = [c[0] for c in chain]
-    if names[:1] != ['fold'] or any(x not in ('fold', 'iter', 'deref', 'into_iter') for x in names):
-        return False, 'total_shapes is not occupied_sites.iter().fold(..): %s' % names
-    if not (src['o'] == 'arg' and field_path(src['p']) == ['occupied_sites']):
-        return False, 'total_shapes does not range over self.occupied_sites'
-    ft = chain[0][1]
-    init = t.origin(ft['args'][1])
-    if not (init['o'] == 'const' and const_value(init['c']) == 0):
-        return False, 'fold does not start at 0'
-    co = t.origin(ft['args'][2])
-    cb = f.body(co['rv']['closure']) if co['o'] == 'rvalue' and co['rv'].get('agg') == 'closure' else None
-    if cb is None:
-        return False, 'fold closure not found'
-    tc = Tracer(cb)
-    mult = [(bi, tt) for bi, tt in cb.calls() if call_matches(tt, 'OccupiedSite::multiplicity')]
-    if len(mult) != 1:
-        return False, 'fold closure does not call multiplicity() once'
-    r = tc.origin({'k': 'copy', 'l': 0, 'p': []})
-    ok = False
-    if r['o'] == 'rvalue' and r['rv']['r'] == 'binop' and r['rv']['op'].startswith('Add'):
-        a, c = tc.origin(r['rv']['a']), tc.origin(r['rv']['b'])
-        kinds = sorted([a['o'], c['o']])
-        ok = kinds == ['arg', 'call'] and (a.get('bb') == mult[0][0] or c.get('bb') == mult[0][0])
-    return ok, 'total_shapes = sum over sites of multiplicity()' if ok else 'fold closure is not |sum, site| sum + site.multiplicity()'
+    """total_shapes = sum over ALL occupied sites of multiplicity()  (nest form: fold / map+sum / for are one shape)."""
+    from ..nest import single_loop_sum
+    ok, why, info = single_loop_sum(f, ts, opaque=('OccupiedSite::multiplicity',))
+    if not ok:
+        return False, 'total_shapes is not the sum of the sites\' multiplicities: ' + why
+    if info['source'] != (1, ['occupied_sites']):
+        return False, 'total_shapes does not range over self.occupied_sites: %s' % (info['source'],)
+    nm = info['norm']
+    from ..sym import APP, SYM
+    want = nm.rf(APP('OccupiedSite::multiplicity', SYM(info['item'])))
+    for pc, inc in info['terms']:
+        if [c for c in pc if c[0] != 'assume'] or not inc.equals(want):
+            return False, 'the per-site term is %s (conditions %s), not site.multiplicity()' % (inc.canon()[:100], [c for c in pc if c[0] != 'assume'][:2])
+    return True, 'total_shapes = sum over sites of multiplicity()'
